@@ -26,7 +26,7 @@ def floors(tier):
     q = tier == "quick"
     return {"streams": 60000 if q else 1500000, "roundtrip.children_nonempty": 50000, "roundtrip.children_empty": 1000, "roundtrip.attrs_int": 2000,
             "roundtrip.meta_nonempty": 2000, "roundtrip.hidden": 5000, "roundtrip.image_with_children": 3000, "tree.nodes": 500000, "rendered_twice": 60000,
-            "roundtrip.children_false_with_children": 30000}
+            "roundtrip.children_false_with_children": 30000, "roundtrip.restored_then_mutated": 20000, "rendered_decorated": 60000}
 
 
 def check_stream(ctx, md, toks, env, count=True):
@@ -65,6 +65,31 @@ def check_stream(ctx, md, toks, env, count=True):
                 continue
             if h != html1:
                 errs.append((f"roundtrip-render-differs:children={ch},as_upstream={up}", f"{h[:200]!r} vs {html1[:200]!r}"))
+
+    # a history of earlier restorations does not matter: after a restored token was given an attribute (plug-ins add ids, classes,
+    # source positions to restored streams), every other restored token still equals its original, and so do tokens restored later
+    # (done on a private copy of the stream: with as_upstream=False a restored token shares its attrs dict with its original)
+    if not count or ctx.counters["streams"] % 2 == 0:
+        ch, up = [(True, True), (False, True), (True, False), (False, False)][(ctx.counters["streams"] // 2) % 4 if count else 0]
+        mine = copy.deepcopy(before)
+        try:
+            rt = [Token.from_dict(t.as_dict(children=ch, as_upstream=up)) for t in mine]
+        except Exception:
+            rt = []
+        j = next((i for i, t2 in enumerate(rt) if not t2.attrs and t2.nesting >= 0), None)
+        if j is not None and len(rt) > 1:
+            rt[j].attrSet("id", "vf-anchor")
+            rt[j].meta["vf"] = 1
+            cnt("roundtrip.restored_then_mutated")
+            bad = next((i for i, (t, t2) in enumerate(zip(mine, rt)) if i != j and t2 != t), None)
+            what, shown = "another restored token", rt
+            if bad is None:
+                shown = [Token.from_dict(t.as_dict(children=ch, as_upstream=up)) for t in mine]
+                bad = next((i for i, (t, t2) in enumerate(zip(mine, shown)) if t2 != t), None)
+                what = "a token restored afterwards"
+            if bad is not None:
+                errs.append((f"roundtrip-unequal-after-earlier-restoration:children={ch},as_upstream={up}",
+                             f"after attrSet/meta on restored token {j} ({rt[j].type}), {what} ({bad}: {mine[bad].type}) no longer equals its original: {first_diff(stream([mine[bad]]), stream([shown[bad]]))}"))
     for t in walk(toks):
         if t.children:
             cnt("roundtrip.children_nonempty")
@@ -151,9 +176,30 @@ def check_stream(ctx, md, toks, env, count=True):
     html4 = md.renderer.render(before, md.options, env)
     if html4 != html1:
         errs.append(("render-changed-tokens", f"a pristine copy renders {html4[:200]!r}, the rendered stream {html1[:200]!r}"))
+    # --- a decorated stream (what a plug-in that adds source positions / classes produces) renders repeatably too ------------------
+    deco = copy.deepcopy(before)
+    for t in deco:
+        if t.map and t.nesting >= 0:
+            t.attrSet("data-line", str(t.map[0]))
+            if t.type in ("fence", "code_block", "paragraph_open"):
+                t.attrJoin("class", "vf")
+    try:
+        outs = [md.renderer.render(deco, md.options, env) for _ in range(3)]
+    except Exception as e:
+        errs.append(("decorated-render-raises", f"{type(e).__name__}: {e}"))
+        outs = []
+    cnt("rendered_decorated")
+    if outs and (outs[0] != outs[1] or outs[1] != outs[2]):
+        k = 1 if outs[0] != outs[1] else 2
+        errs.append(("render-not-repeatable:decorated", f"render {k + 1} of a stream whose block tokens carry data-line/class attributes differs from render {k}: {first_str_diff(outs[k], outs[k - 1])}"))
     # rendering may set derived attributes (image alt); nothing that affects a later render - checked above; also the tokens
     # must still round-trip
     return errs
+
+
+def first_str_diff(a, b):
+    i = next((k for k in range(min(len(a), len(b))) if a[k] != b[k]), min(len(a), len(b)))
+    return f"{a[max(0, i - 60):i + 60]!r} vs {b[max(0, i - 60):i + 60]!r}"
 
 
 def examine(ctx, conf, src, count=False):
